@@ -83,14 +83,14 @@ func init() {
 	})
 	addSpec(&propSpec{
 		ID:          "C19",
-		Rule:        "complete enumeration: every FLG x BD descriptor (65536) x every checksum byte (256), content-size field present exactly when FLG says so, with 2 (quick) / 16 (thorough) size values incl. 2^64-1; each header goes through ValidFrameHeader and a fresh Reader (Read, Size); every header with a correct checksum byte is also delivered to a Reader one byte per read and with one split at a rotating position (same verdict and Size required). Every accepted header (and a sample of the others) is also read by one Reader that is reused with Reset, right after a valid header of the other kind (with / without a content size): verdict and Size as from a new Reader. A cell is (FLG value, size value index); plus non-magic first words.",
-		Assumptions: append([]string{"content-size values are sampled (2 or 16 of 2^64); everything else in the header space is enumerated"}, baseAssumptions...),
+		Rule:        "complete enumeration: every FLG x BD descriptor (65536) x every checksum byte (256), content-size field present exactly when FLG says so, with 3 (quick: 2^64-1, 0, one seeded) / 16 (thorough) size values; each header goes through ValidFrameHeader and a fresh Reader (Read, Size); every header with a correct checksum byte is also delivered to a Reader one byte per read and with one split at a rotating position (same verdict and Size required). Every accepted header (and a sample of the others) is also read by one Reader that is reused with Reset, right after a valid header of the other kind (with / without a content size): verdict and Size as from a new Reader. A cell is (FLG value, size value index); plus non-magic first words.",
+		Assumptions: append([]string{"content-size values are sampled (3 or 16 of 2^64); everything else in the header space is enumerated"}, baseAssumptions...),
 		Exhaustive: func(rs *runState) bool {
 			// 128 FLG values without size flag + 128 with, times size values
-			return rs.counters["headers"] >= 65536*128*3
+			return rs.counters["headers"] >= 65536*128*4
 		},
 		Require: func(rs *runState) string {
-			if rs.counters["headers"] < 65536*128*3 {
+			if rs.counters["headers"] < 65536*128*4 {
 				return fmt.Sprintf("only %d headers enumerated", rs.counters["headers"])
 			}
 			if rs.counters["accepted"] == 0 {
